@@ -2,6 +2,7 @@ import AslModel.Xdl
 import AslModel.Dtoa
 import AslProofs.JsonSpec
 import AslProofs.XdlEnc
+import AslProofs.XdlX
 /-!
 # C05 — JSON (and XDL) encoding round-trips every Var
 
@@ -98,10 +99,37 @@ theorem file_roundtrip (g : Nat → UInt64 → Bytes) (m : Mode) (hj : m.json = 
 def double_roundtrip_full (g : Nat → UInt64 → Bytes) (atof : Bytes → UInt64) : Prop :=
   ∀ b : UInt64, dFinite b = true → b.toNat % 2 ^ 63 ≠ 0 → atof (g 17 b) = b
 
-/-- XDL round trip for identifier keys (`name=value`, `Y/N`, class prefix, newline separators): K only -/
-def xdl_roundtrip_full (g : Nat → UInt64 → Bytes) : Prop :=
-  ∀ (m : Mode) (v : EV), m.json = false → WF v → H1 g → depth (denote g m v) ≤ 1000 →
-    (∃ r, decode (encode g m v) = some (some r))
+/-- XDL round trip in PRETTY layout (newline-separated members and items): K only -/
+def xdl_roundtrip_pretty_full (g : Nat → UInt64 → Bytes) : Prop :=
+  ∀ (m : Mode) (v : EV), m.json = false → m.pretty = true → AslProofs.XdlX.WFX v → H1 g → AslProofs.XdlX.xdepth v ≤ 1000 →
+    decode (encode g m v) = some (some (AslProofs.XdlX.xnorm g m v))
+
+/-! ## XDL (proved for the compact layout) -/
+
+/-- `Xdl::decode(Xdl::encode(v, mode))` without PRETTY, for trees whose keys are identifiers and whose
+    `$type` is a class name: the result is `xnorm v` — same structure, same keys, strings, booleans
+    (written `Y`/`N`), numbers as the decoder classifies their lexemes, the class name back as `$type`,
+    undefined members dropped (nesting ≤ 1000) -/
+theorem xdl_roundtrip_compact (g : Nat → UInt64 → Bytes) (m : Mode) (hp : m.pretty = false) (hj : m.json = false)
+    (hg : H1 g) (v : EV) (hw : AslProofs.XdlX.WFX v) (hd : AslProofs.XdlX.xdepth v ≤ 1000) :
+    decode (encode g m v) = some (some (AslProofs.XdlX.xnorm g m v)) :=
+  AslProofs.XdlX.xdl_decode_encode g m hp hj hg v hw hd
+
+/-- non-vacuity of the XDL hypotheses: `Point{on=Y,x=1}` -/
+example : AslProofs.XdlX.WFX (.obj [(classKey, .str [80, 111, 105, 110, 116]), ([111, 110], .bool true), ([120], .int 1)]) := by
+  have idc : ∀ c : UInt8, isAlnum c = true → AslProofs.XdlX.isIdChar c := fun c h => Or.inl h
+  have h1 : AslProofs.XdlX.validCls [80, 111, 105, 110, 116] := by
+    refine ⟨80, [111, 105, 110, 116], rfl, Or.inl ⟨by decide, by decide⟩, ?_, ?_⟩
+    · intro c hc
+      simp at hc
+      rcases hc with rfl | rfl | rfl | rfl <;> exact idc _ (by decide)
+    · unfold AslProofs.XdlX.reserved; decide
+  have h2 : AslProofs.XdlX.validKey [111, 110] :=
+    ⟨111, [110], rfl, Or.inl (by decide), by intro c hc; simp at hc; subst hc; exact idc _ (by decide), by decide⟩
+  have h3 : AslProofs.XdlX.validKey [120] :=
+    ⟨120, [], rfl, Or.inl (by decide), by intro c hc; simp at hc, by decide⟩
+  show AslProofs.XdlX.WFXM _
+  exact ⟨Or.inl ⟨rfl, _, rfl, h1⟩, Or.inr ⟨h2, trivial⟩, Or.inr ⟨h3, by decide, by decide⟩, trivial⟩
 
 /-! ## non-vacuity -/
 
